@@ -516,6 +516,15 @@ func c05Child() {
 	debug.SetMemoryLimit(2 << 30)
 	c05Shared = twig.New()
 	c05Helpers(c05Shared)
+	// names the registrations do not have go to the library's own loaders: a file-system loader on an empty directory
+	// with two search paths, alone and inside a chain
+	if dir, derr := os.MkdirTemp("", "c05fs"); derr == nil {
+		os.MkdirAll(filepath.Join(dir, "sub"), 0o755)
+		os.WriteFile(filepath.Join(dir, "sub", "real.twig"), []byte("real {{ a }}"), 0o644)
+		fsl := twig.NewFileSystemLoader([]string{dir, filepath.Join(dir, "sub")})
+		c05Shared.RegisterLoader(fsl)
+		c05Shared.RegisterLoader(twig.NewChainLoader([]twig.Loader{twig.NewArrayLoader(map[string]string{}), twig.NewFileSystemLoader([]string{dir})}))
+	}
 	// a second engine whose templates come from a loader; the map is the loader's own, so the source under
 	// test is swapped in place
 	c05LoaderSrc = map[string]string{
@@ -847,6 +856,14 @@ func c05Small(c Case) Case {
 }
 
 func runC05(casesPath string, res *Result) {
+	// the children make a scratch directory each for their file-system loaders
+	defer func() {
+		if m, _ := filepath.Glob(filepath.Join(os.TempDir(), "c05fs*")); len(m) > 0 {
+			for _, d := range m {
+				os.RemoveAll(d)
+			}
+		}
+	}()
 	var cases []Case
 	readCases(casesPath, func(c Case) {
 		// (a replay file keeps the recipe and a remark in place of the megabytes)
